@@ -291,8 +291,21 @@ def falsifier(chk, seed, n):
     grid = [0, 0.5, 1, 1.5, 2, 3]
     for _ in range(n):
         kind = rnd.random()
-        if kind < 0.5:
+        if kind < 0.4:
             pts = [(rnd.choice(grid), rnd.choice(grid)) for _ in range(4)]
+        elif kind < 0.6:
+            # parallel by construction, with decimal coordinates that binary floats do not represent exactly: the cross
+            # product of the directions is rounding noise (about 1e-16), not 0
+            f1 = (rnd.randint(0, 200) / 10, rnd.randint(0, 200) / 10)
+            dv = (rnd.randint(-99, 99) / 10, rnd.randint(-99, 99) / 10)
+            if dv == (0.0, 0.0):
+                dv = (0.3, 0.7)
+            off = (rnd.randint(-50, 50) / 10, rnd.randint(-50, 50) / 10)
+            lam = rnd.choice([1, 1, 0.5, 2, 0.3, -1])
+            f2 = (f1[0] + dv[0], f1[1] + dv[1])
+            t1 = (f1[0] + off[0], f1[1] + off[1])
+            t2 = (t1[0] + lam * dv[0], t1[1] + lam * dv[1])
+            pts = [f1, f2, t1, t2]
         else:
             s = 10 ** rnd.uniform(-3, 4)
             pts = [(rnd.uniform(-s, s), rnd.uniform(-s, s)) for _ in range(4)]
@@ -311,6 +324,17 @@ def falsifier(chk, seed, n):
             res, bad = repr(e), ['raised']
         n_ = (t2[1] - t1[1]) * (f2[0] - f1[0]) - (t2[0] - t1[0]) * (f2[1] - f1[1])
         region = 'exactly-parallel' if n_ == 0 else ('tolerance-band' if abs(n_) <= 1e-8 else 'generic')
+        if region == 'tolerance-band' and bad and not isinstance(res, str):
+            # finding F5b covers what the absolute 1e-8 tolerance can do: treating a nearly parallel pair as parallel moves the
+            # result by at most about 1e-8 / (shorter length).  A gross error in the band is something else.
+            try:
+                true_d = math.sqrt(float(O.seg_seg_dist2(f1, f2, t1, t2)))
+                lmin = min(math.hypot(f2[0] - f1[0], f2[1] - f1[1]), math.hypot(t2[0] - t1[0], t2[1] - t1[1]))
+                scale_ = max(abs(float(c_)) for p_ in c for c_ in p_)
+                if abs(res[0] - true_d) > 1e-6 * (1 + scale_) + (1e-7 / lmin if lmin > 0 else 0):
+                    region = 'rounding-noise-in-the-parallel-test(gross-error)'
+            except Exception:
+                pass
         if f1 != f2 and t1 != t2:
             nontriv += 1
         if bad:
@@ -331,7 +355,8 @@ def falsifier(chk, seed, n):
                                   'actual': res2, 'failed_clauses': bad2})
     chk.bounded_suite('geometry-falsifier', len(seen) * 2, nontriv, [list(map(list, c)) for c in corpus[:2] + cases[:2]],
                       rule='segment pairs from the half-integer grid (parallel, collinear, touching, crossing, zero-length '
-                           'occur by construction) and log-uniform random scales 1e-3..1e4, seeded by VERIF_SEED; each pair '
+                           'occur by construction), parallel pairs with one-decimal coordinates (not exactly representable: cross product is rounding noise) '
+                           'and log-uniform random scales 1e-3..1e4, seeded by VERIF_SEED; each pair '
                            'also gives one point-segment case; non-trivial = both segments have positive length; results compared '
                            'with an exact rational reference', bounds=f"{len(seen)} distinct segment pairs")
 
@@ -374,7 +399,7 @@ def run(tier, seed, only=None):
                               budget=lambda ob: short if re.search(hard, ob.name) else timeout)
         chk.record(res, group, replayer=replayer, tolerate_unknown=hard)
         chk.notes.append(f"{group}: paths={rep.paths} returning={rep.returning} raising={rep.raising}")
-    falsifier(chk, seed, 300 if tier == 'quick' else 20000)
+    falsifier(chk, seed, 2000 if tier == "quick" else 40000)
     chk.extra['paths_explored'] = total_paths
     return chk.finish()
 
